@@ -333,9 +333,9 @@ def abiSize (tg : Target) : GoType → Nat
   | .named t => abiSize tg t
 
 mutual
-/-- `Builder.Align` = `Builder.FieldAlign` -/
-def abiAlign (tg : Target) : GoType → Nat
-  | .basic b => abiBasicAlign tg b
+/-- `Builder.Align` = `Builder.FieldAlign`, for a given table `ba` of basic-kind alignments -/
+def abiAlignG (tg : Target) (ba : Basic → Nat) : GoType → Nat
+  | .basic b => ba b
   | .pointer _ => tg.ptrSize
   | .map _ _ => tg.ptrSize
   | .chan _ => tg.ptrSize
@@ -343,19 +343,35 @@ def abiAlign (tg : Target) : GoType → Nat
   | .slice _ => tg.ptrSize
   | .iface _ => tg.ptrSize
   | .closure => if tg.ptrSize > 1 then tg.ptrSize else 1   -- struct {Signature; UnsafePointer}
-  | .array _ e => abiAlign tg e
-  | .struct fs => abiAligns tg fs
-  | .named t => abiAlign tg t
-def abiAligns (tg : Target) : Fields → Nat
+  | .array _ e => abiAlignG tg ba e
+  | .struct fs => abiAlignsG tg ba fs
+  | .named t => abiAlignG tg ba t
+def abiAlignsG (tg : Target) (ba : Basic → Nat) : Fields → Nat
   | .nil => 1
-  | .cons t fs => if abiAlign tg t > abiAligns tg fs then abiAlign tg t else abiAligns tg fs
+  | .cons t fs => if abiAlignG tg ba t > abiAlignsG tg ba fs then abiAlignG tg ba t else abiAlignsG tg ba fs
 end
+
+/-- the code as it is: the hand-written table -/
+def abiAlign (tg : Target) (t : GoType) : Nat := abiAlignG tg (abiBasicAlign tg) t
 
 def abiFieldAlign (tg : Target) (t : GoType) : Nat := abiAlign tg t
 
-/-- (c): descriptor of the raw type; offsets are `prog.OffsetOf(prog.rawType(t), i)` (`abiStructFields`) -/
+/-- the offsets a struct descriptor records: `prog.OffsetOf(prog.rawType(t), i)` (`abiStructFields`) -/
+def abiOffsets (tg : Target) (t : GoType) : List Nat := if isStruct t then llOffsets tg (toRaw t) else []
+
+/-- (c): descriptor of the raw type -/
 def abiTable (tg : Target) (t : GoType) : Layout :=
-  ⟨abiSize tg (toRaw t), abiAlign tg (toRaw t), if isStruct t then llOffsets tg (toRaw t) else []⟩
+  ⟨abiSize tg (toRaw t), abiAlign tg (toRaw t), abiOffsets tg t⟩
+
+/-- the table with `fixes/C08-1.diff` applied: 8-byte kinds take the ABI alignment of `i64` / `double` from the data
+    layout instead of the constant 8 -/
+def abiBasicAlignFixed (tg : Target) : Basic → Nat
+  | .int64 | .uint64 => tg.llI64
+  | .float64 | .complex128 => tg.llF64
+  | b => abiBasicAlign tg b
+
+def abiTableFixed (tg : Target) (t : GoType) : Layout :=
+  ⟨abiSize tg (toRaw t), abiAlignG tg (abiBasicAlignFixed tg) (toRaw t), abiOffsets tg t⟩
 
 /-! ## map buckets (`ssa/abi/map.go` `MapBucketType`, `abiExtendedFields`) -/
 
@@ -399,6 +415,9 @@ def wfTarget (tg : Target) : Bool :=
 
 /-- per basic kind the descriptor table's alignment equals the LLVM ABI alignment -/
 def abiOK (tg : Target) : Bool := Basic.all.all (fun b => abiBasicAlign tg b == (llBasic tg b).2)
+
+/-- the same for an arbitrary table (used for the repaired table) -/
+def abiOKG (tg : Target) (ba : Basic → Nat) : Bool := Basic.all.all (fun b => ba b == (llBasic tg b).2)
 
 /-- the only two shapes a well-formed target can have -/
 def gcTarget (p : Nat) : Target := ⟨p, true, p, p, 1, 2, 4, min 8 p, 4, min 8 p, p⟩
